@@ -173,8 +173,32 @@ def worker_main(argv):
         agg = mod.new_aggregate()
         n_done = 0
         selfcheck_every = mod.SELFCHECK_EVERY.get(tier, 8)
-        for k in range(count):
-            i = start + k * stride
+        claim_dir = os.environ.get("VERIF_CLAIM_DIR")
+
+        def indices():
+            """Run indices for this worker: a static stride, or (default in checks) dynamically claimed chunks so that a few
+            expensive runs / minimisations do not leave the other workers idle.  Which worker executes a run never matters."""
+            if not claim_dir:
+                for k_ in range(count):
+                    yield k_, start + k_ * stride
+                return
+            chunk = 40
+            total = int(os.environ["VERIF_TOTAL_RUNS"])
+            c = 0
+            kk = 0
+            while c * chunk < total:
+                try:
+                    fd = os.open(os.path.join(claim_dir, f"c{c}"), os.O_CREAT | os.O_EXCL | os.O_WRONLY)
+                    os.close(fd)
+                except FileExistsError:
+                    c += 1
+                    continue
+                for i_ in range(c * chunk, min(total, (c + 1) * chunk)):
+                    yield kk, i_
+                    kk += 1
+                c += 1
+
+        for k, i in indices():
             # the soft deadline truncates the *set* of runs (reported in the evidence); a run's behaviour
             # still depends on its seed only
             if time.time() > soft_deadline:
@@ -323,13 +347,16 @@ def check_main(prop: str, tier: str, runs_override=None) -> int:
     nw = max(1, min(N_WORKERS, n_runs))
     procs = []
     soft_deadline = t0 + soft
+    claim_dir = os.path.join(WORK_DIR, tag + "-claims")
+    os.makedirs(claim_dir, exist_ok=True)
     for w in range(nw):
         count = (n_runs - w + nw - 1) // nw
         out_path = os.path.join(WORK_DIR, f"{tag}-w{w}.jsonl")
         cmd = [PY, os.path.join(VERIF_DIR, "bin", "simcheck.py"), "_worker", prop, tier, str(base), str(w), str(nw),
                str(count), repr(soft_deadline), out_path]
         errf = open(out_path + ".err", "w")
-        procs.append((subprocess.Popen(cmd, env=worker_env(), stdout=errf, stderr=errf), out_path, errf))
+        procs.append((subprocess.Popen(cmd, env=worker_env({"VERIF_CLAIM_DIR": claim_dir, "VERIF_TOTAL_RUNS": str(n_runs)}), stdout=errf, stderr=errf),
+                      out_path, errf))
     timed_out = False
     for p, _, errf in procs:
         remaining = t0 + hard - time.time()
@@ -383,6 +410,9 @@ def check_main(prop: str, tier: str, runs_override=None) -> int:
             except OSError:
                 pass
             harness_errors.append(f"worker produced no aggregate (rc={p.returncode}): {err}")
+    import shutil
+
+    shutil.rmtree(claim_dir, ignore_errors=True)
     for _, out_path, _ in procs:
         for pth in (out_path, out_path + ".err"):
             try:
